@@ -243,8 +243,8 @@ def run_engine(prop, tier, seed, extra_args=None):
             path = crash_replay(prop, cfg)
             if path:
                 violations += 1
-                print("  the harness process crashed (fatal signal) while executing a generated case; "
-                      "replaying that case alone crashes again: memory-unsafe behaviour reached through the safe API")
+                print("  the harness process was killed (fatal signal or abort: memory-unsafe behaviour reached through the safe "
+                      "API, or an allocation failure inside the library) while executing a generated case; replaying that case alone dies again")
                 line = "VIOLATION property=%s replay=%s" % (prop, path)
                 print(line)
                 viol_lines.append(line)
